@@ -48,6 +48,17 @@ def real_point(spec):
     from tinyflux import Point
 
     kw = {}
+    if spec.get("t") is None and spec.get("bare"):
+        # a point that really has no time until it is inserted: Point() without arguments, attributes assigned later
+        # (Point(measurement=...) without time= is stamped at construction instead)
+        p = Point()
+        if spec.get("m") is not None:
+            p.measurement = spec["m"]
+        if spec.get("tags"):
+            p.tags = dict(spec["tags"])
+        if spec.get("fields"):
+            p.fields = dict(spec["fields"])
+        return p
     if spec.get("t") is not None:
         kw["time"] = real_time(spec["t"])
     if spec.get("m") is not None:
